@@ -1,0 +1,34 @@
+//go:build verif
+
+// Machine-checked contracts for package fs, consumed by /verif/bin/walvc.
+// This file contains no code. The OS is modelled as a trace of ghost events
+// (openfile/open/fsync/unlink/preallocate/...), see /verif/vc/osmodel.go.
+
+package fs
+
+//@ -- File.Sync refines types.WritableFile.Sync: fsync(file) and, the first time
+//@ -- only, fsync of the containing directory, before nil is returned.
+//@ func (*File).Sync
+//@   props C07
+//@   assigns f.new
+//@   ensures[C07.sync-file] result == nil ==> traced("fsync(file)")
+//@   ensures[C07.first-sync-syncs-dir] result == nil && old(f.new) == 0 ==> traced("fsync(file)", "open(dir)", "fsync(dir)")
+//@   ensures[C07.sync-marks-linked] result == nil ==> f.new == 1
+//@   ensures[C07.failed-file-sync-keeps-new] !traced("open(dir)") && result != nil ==> f.new == old(f.new)
+
+//@ func (*FS).Create
+//@   props C07
+//@   ensures[C07.create-exclusive] traced("openfile(excl-create,rdwr)")
+//@   ensures[C07.create-prealloc] result1 == nil && size > 0 ==> traced("openfile(excl-create,rdwr)", "preallocate(extend)")
+//@   ensures[C07.create-new-flag] result1 == nil ==> isdyn(result0, "fs.File") && result0.new == 0
+
+//@ func (*FS).Delete
+//@   props C07
+//@   ensures[C07.delete-syncs-dir] result == nil ==> traced("unlink", "open(dir)", "fsync(dir)")
+
+//@ -- a recovered tail may never have had a durable directory entry (its creator
+//@ -- may have died before the first commit), so the handle must still perform
+//@ -- the directory fsync on its first Sync
+//@ func (*FS).OpenWriter
+//@   props C07
+//@   ensures[C07.first-commit-dirsync] result1 == nil ==> isdyn(result0, "fs.File") && result0.new == 0
